@@ -48,6 +48,9 @@ type enc struct {
 	buf []byte
 	lay *Layout
 	reg func(alg string) bool
+	// wide: a registered algorithm of a 64-bit checksum field returns a value that needs all
+	// 64 bits (WideChecksum), not the 31-bit hash
+	wide bool
 }
 
 func (e *enc) putUint(v uint64, size int, le bool) {
@@ -77,7 +80,16 @@ func (e *enc) leaf(path, owner, field, kind, typ string, off, n int) {
 // Encode produces the canonical encoding of message v of packet k. registered tells whether a
 // checksum algorithm name has a service.
 func Encode(p *dsl.Program, k *dsl.Packet, v dsl.Val, registered func(string) bool) ([]byte, *Layout) {
-	e := &enc{p: p, cfg: p.Opts.Effective(), lay: &Layout{Ranges: map[string]Range{}, Wire: map[string]uint64{}}, reg: registered}
+	return EncodeWide(p, k, v, registered, false)
+}
+
+// WideChecksum is the value of the test algorithm for 64-bit checksum fields in wide mode: the
+// 31-bit hash in both halves, so that a result cut to 32 bits on its way into the field shows.
+func WideChecksum(b []byte) uint64 { return uint64(Checksum(b)) * 0x100000001 }
+
+// EncodeWide is Encode with the wide test algorithm for 64-bit checksum fields.
+func EncodeWide(p *dsl.Program, k *dsl.Packet, v dsl.Val, registered func(string) bool, wide bool) ([]byte, *Layout) {
+	e := &enc{p: p, cfg: p.Opts.Effective(), lay: &Layout{Ranges: map[string]Range{}, Wire: map[string]uint64{}}, reg: registered, wide: wide}
 	e.packet(k, v, k.Name)
 	return e.buf, e.lay
 }
@@ -142,6 +154,9 @@ func (e *enc) one(k *dsl.Packet, f *dsl.Field, v dsl.Val, path string) {
 		val := v.U
 		if e.reg != nil && e.reg(f.Alg) {
 			val = uint64(Checksum(e.buf))
+			if e.wide && sz == 8 {
+				val = WideChecksum(e.buf)
+			}
 		}
 		if sz < 8 {
 			val &= (uint64(1) << (uint(sz) * 8)) - 1
